@@ -87,3 +87,25 @@ def run_bounded_rac(pid, racs, out, tier):
         out.bounded.append({'harness': oid, 'kind': 'bounded-rac', 'bound': stats.get('bound'), 'checks': int(stats.get('cases', 0)),
                             'nontrivial': int(stats.get('nontrivial', 0)), 'result': 'SUCCESSFUL', 'function': it['function'], 'repo': it['attach'],
                             'wall_s': r['wall_s']})
+
+
+def fallback_for_undecided_units(pid, units, out):
+    """A unit that Verus could not even take (anchor lost / unsupported construct after a rewrite) is
+    undecided - unless the runtime contract check of its functions finds a concrete failing input on
+    the real code, which is a refutation that needs no prover."""
+    from rac.registry import RAC, UNIT_RAC
+    names = []
+    for u in sorted(units):
+        names += [n for n in UNIT_RAC.get(u, []) if n not in names]
+    if not names:
+        return
+    items = [RAC[n] | {'name': n} for n in names]
+    res = run_tests(items)
+    for it in items:
+        r = res.get(it['test'])
+        if r and r['cex']:
+            out.violations.append({'obligation': f'rac:{it["name"]}', 'unit': 'rac-fallback', 'function': it['function'], 'repo': it['attach'],
+                                   'message': 'unit undecided by Verus; runtime contract check found a failing input on the real code: ' + r['cex'][0][1][:300],
+                                   'spans': [], 'verifier_output': r['tail'], 'rac_counterexample': r['cex'][0][1], 'rac': it['name']})
+        else:
+            out.extra.setdefault('rac_fallback', []).append({'rac': it['name'], 'result': (r or {}).get('ok') or (r or {}).get('tail', '')[-300:]})
